@@ -632,6 +632,8 @@ def gen_cell(rng, k, goodZ, nodata):
         tries += 1
         abc = np.round(rng.uniform(3.0, 14.0, 3), 4)
         ang = np.round(rng.uniform(50.0, 130.0, 3), 3)
+        if k % 5 == 3 and tries == 1:       # long-period cells (multilayers, soaps, clays, proteins): with hard X-rays the Bragg angles are tiny
+            abc = np.round(abc * [rng.uniform(8, 40), rng.uniform(1, 30), rng.uniform(8, 40)], 3)
         if k % 5 == 1 and tries == 1:       # a symmetric choice that turns out degenerate (flat cell) is replaced by a random cell on the next pass
             # cells with symmetry: equal angles (rhombohedral, primitive fcc 60, primitive bcc 109.47), equal edges, hexagonal, monoclinic,
             # orthogonal - exactly equal arguments are where a special-cased formula would sit
